@@ -5,3 +5,7 @@ import XProofs.Properties.C07
 #print axioms Properties.C07.C07_lookup_keeps_coherence
 #print axioms Properties.C07.C07_setCol_keeps_coherence
 #print axioms Properties.C07.C07_new_coherent
+#print axioms Properties.C07.C07_setCell_keeps_coherence
+#print axioms Properties.C07.C07_delCol_keeps_coherence
+#print axioms Properties.C07.C07_history_coherent
+#print axioms Properties.C07.C07_lookup_after_history
